@@ -441,8 +441,8 @@ func (m *MapPollard) moveUpChild(position, delPos, numLeaves uint64,
 		m.Nodes.Delete(c)
 		m.Nodes.Put(nextPos, lVal)
 
-		_, exists := m.CachedLeaves.Get(lVal.Hash)
-		if exists {
+		cachedPos, exists := m.CachedLeaves.Get(lVal.Hash)
+		if exists && cachedPos == c {
 			m.CachedLeaves.Put(lVal.Hash, nextPos)
 		}
 
@@ -587,8 +587,8 @@ func (m *MapPollard) removeSingle(del uint64) error {
 		m.Nodes.Put(Parent(del, m.TotalRows), node)
 
 		// Update the cache position if it exists in there.
-		_, cacheFound := m.CachedLeaves.Get(node.Hash)
-		if cacheFound {
+		cachedPos, cacheFound := m.CachedLeaves.Get(node.Hash)
+		if cacheFound && cachedPos == sibling(del) {
 			newPos, err := calcNextPosition(sibling(del), del, m.TotalRows)
 			if err != nil {
 				return err
@@ -648,7 +648,10 @@ func (m *MapPollard) undoSingleAdd(emptyRootPositions []uint64) ([]uint64, error
 		leaf, found := m.Nodes.Get(pos)
 		if found {
 			m.Nodes.Delete(pos)
-			m.CachedLeaves.Delete(leaf.Hash)
+			cachedPos, cached := m.CachedLeaves.Get(leaf.Hash)
+			if cached && cachedPos == pos {
+				m.CachedLeaves.Delete(leaf.Hash)
+			}
 		}
 
 		if h != 0 {
@@ -700,7 +703,8 @@ func (m *MapPollard) placeEmptyRoot(prevRootPos uint64) error {
 			if found && v.Hash != empty {
 				m.Nodes.Delete(curPos)
 
-				_, cached := m.CachedLeaves.Get(v.Hash)
+				cachedPos, cached := m.CachedLeaves.Get(v.Hash)
+				cached = cached && cachedPos == curPos
 				if cached {
 					m.CachedLeaves.Put(v.Hash, pos)
 				}
@@ -748,7 +752,8 @@ func (m *MapPollard) undoDeletion(proof Proof, hashes []Hash) error {
 		prevPos := calcPrevPosition(sib, deTwinedTargets[i], m.TotalRows)
 		v, found := m.Nodes.Get(sib)
 		if found {
-			_, cached := m.CachedLeaves.Get(v.Hash)
+			cachedPos, cached := m.CachedLeaves.Get(v.Hash)
+			cached = cached && cachedPos == sib
 			if cached {
 				m.CachedLeaves.Put(v.Hash, prevPos)
 			}
